@@ -141,11 +141,18 @@ func VH_C11_slash_evidence(h *vrt.H) {
 }
 
 func VH_C11_weight(h *vrt.H) {
-	n, ws := vhUniverse(h)
+	// one validator in both tiers (two did not finish in 25 minutes: the re-ranking of every
+	// holder multiplies the paths); the thorough tier widens the weights instead
+	_, ws := vhUniverse(h)
+	n := 1
 	k, ctx := vhKeeper(h)
 	st := vhBuild(h, k, ctx, n, 1, ws)
 	pre := vhSnapshot(h, k, ctx, st)
-	nw := []uint64{0, 1, 2, 3_000_000_000_000_000_000}[h.Choose("newWeight", 0, 3)]
+	newWeights := []uint64{0, 1, 2, 3_000_000_000_000_000_000}
+	if h.Thorough() {
+		newWeights = append(newWeights, 1_000_000_000, 1_000_000_000_000_000_000)
+	}
+	nw := newWeights[h.Choose("newWeight", 0, len(newWeights)-1)]
 	var err error
 	// a weight drop whose power difference exceeds 64 bits panics in math.Int.Uint64();
 	// message handlers run under baseapp's recover, the transaction fails and is rolled back
